@@ -1,0 +1,11 @@
+// Copyright © 2022-2026 Obol Labs Inc. Licensed under the terms of a Business Source License 1.1
+
+//go:build verif
+
+// Verification contracts (comments only; read by /verif/govc, never compiled into charon).
+package core
+
+//@ func (d DutyType) Valid
+//@ props C05 C10
+//@ pure
+//@ ensures result <==> d > 0 && d < 14
